@@ -1129,18 +1129,48 @@ func c07w32run(c *h.Ctx, cases []c07w32case) ([][]c07w32obs, string) {
 	if out, err := build.CombinedOutput(); err != nil {
 		return nil, "cannot build for GOARCH=386: " + err.Error() + ": " + string(out)
 	}
-	in, _ := json.Marshal(cases)
-	run := exec.Command(bin)
-	run.Stdin = bytes.NewReader(in)
-	var stderr bytes.Buffer
-	run.Stderr = &stderr
-	out, err := run.Output()
-	if err != nil {
-		return nil, "cannot run the GOARCH=386 helper: " + err.Error() + ": " + stderr.String()
+	runSome := func(cs []c07w32case) ([][]c07w32obs, string) {
+		in, _ := json.Marshal(cs)
+		run := exec.Command(bin)
+		run.Stdin = bytes.NewReader(in)
+		var stderr bytes.Buffer
+		run.Stderr = &stderr
+		out, err := run.Output()
+		if err != nil {
+			msg := stderr.String()
+			if len(msg) > 600 {
+				msg = msg[:600]
+			}
+			return nil, err.Error() + ": " + msg
+		}
+		var obs [][]c07w32obs
+		if err := json.Unmarshal(out, &obs); err != nil || len(obs) != len(cs) {
+			return nil, "bad output of the GOARCH=386 helper"
+		}
+		return obs, ""
 	}
-	var obs [][]c07w32obs
-	if err := json.Unmarshal(out, &obs); err != nil || len(obs) != len(cases) {
-		return nil, "bad output of the GOARCH=386 helper"
+	obs, why := runSome(cases)
+	if obs != nil {
+		return obs, ""
+	}
+	// The helper was built but died (a fatal error in Recv, e.g. out of memory, cannot be recovered):
+	// run the cases one by one; the cases that kill it are oracle failures.
+	obs = make([][]c07w32obs, len(cases))
+	killed := 0
+	for i, cs := range cases {
+		o, why1 := runSome([]c07w32case{cs})
+		if o == nil {
+			killed++
+			obs[i] = []c07w32obs{{Class: 5, Panic: "process died: " + why1}}
+			if killed >= 3 {
+				break
+			}
+			continue
+		}
+		obs[i] = o[0]
+	}
+	if killed == 0 {
+		c.Extra("int32_leg_note", "the GOARCH=386 helper died on the whole case list (cases were then run one per process): "+strings.SplitN(why, "\n", 2)[0])
 	}
 	return obs, ""
 }
@@ -1242,7 +1272,8 @@ func driveC07(c *h.Ctx) error {
 		"C. announced lengths within -17..+9 of each limit in {16,24,64,1024,1 MiB} and 2^31-1, 2^31, 2^32-8, 2^32-7, 2^32-1, under 5 header chunkings; " +
 		"D. no limit: messages around and above the initial 512-byte buffer, whole and truncated; " +
 		"E. random streams (messages, undecodable frames, oversize headers, cuts) under random schedules incl. (0,nil) reads and mid-stream errors; " +
-		"F. standard transports (bytes.Reader, iotest One-byte/Half/DataErr/Timeout readers, crypto/tls 1.2 with close_notify behind the data). " +
+		"F. standard transports (bytes.Reader, iotest One-byte/Half/DataErr/Timeout readers, crypto/tls 1.2 with close_notify behind the data); " +
+		"W32. a GOARCH=386 build of the library: 22 announced lengths around 2^31 and 2^32 x limit {1 MiB, 64, none} x 3 chunk sizes x error attached or not. " +
 		"A case is non-trivial when some message is not delivered by exactly one read per phase (header, body) or the stream is cut / oversize / faulty; distinct by (max, bytes, schedule, end error, transport)")
 	var cases []c07case
 	var w32cases []c07w32case
